@@ -726,8 +726,8 @@ class FilterCollector(WrappingCollector):
 
         for global_docnum in child.all_ids():
             if (
-                (_allow and global_docnum not in _allow) or
-                (_restrict and global_docnum in _restrict)
+                (_allow is not None and global_docnum not in _allow) or
+                (_restrict is not None and global_docnum in _restrict)
             ):
                     continue
             yield global_docnum
